@@ -33,29 +33,35 @@ def showRec (r : Kseq.Rec) : String :=
   let g := Kseq.goRec r
   hex g.1 ++ "/" ++ hex g.2.1 ++ "/" ++ hex g.2.2.1 ++ "/" ++ hex g.2.2.2
 
-/-- the C reader on the bytes zlib delivers (`d`) and zlib's final status; kseq's buffer is 4096 bytes -/
+def sameRec (x y : Kseq.Rec) : Bool := x.name == y.name && x.comment == y.comment && x.seq == y.seq && x.qual == y.qual
+
+def sameRecs : List Kseq.Rec → List Kseq.Rec → Bool
+  | [], [] => true
+  | x :: xs, y :: ys => sameRec x y && sameRecs xs ys
+  | _, _ => false
+
+def sameRun (x y : List Kseq.Rec × Kseq.Outcome) : Bool := x.2 == y.2 && sameRecs x.1 y.1
+
+/-- the C reader on the bytes zlib delivers (`d`) and zlib's final status; kseq's buffer is 4096 bytes.
+The index-level transcription (Model/KseqIdx.lean) is run side by side with the list model (they are proved equal:
+`kseqIdx_refines`) on inputs of at most 16 buffers (the termination measure of both loops walks the reads to come at
+every record); a difference is the result `layer-mismatch` -/
 def runKseq (fin : Kseq.Fin) (d : List UInt8) : String :=
-  let a := Kseq.readAll 4096 fin false 0 d
-  let b := Kseq.readAll 4096 fin true 255 d
-  -- the index-level transcription (Model/KseqIdx.lean) is run side by side (proved equal: `kseqIdx_refines`)
-  -- (on inputs of at most 16 buffers: the termination measure of both loops walks the reads to come at every record)
   let small := d.length ≤ 65536
-  let ai := if small then KseqIdx.readAllI 4096 fin false (Array.replicate 4096 0) d else a
-  let bi := if small then KseqIdx.readAllI 4096 fin true (Array.replicate 4096 255) d else b
-  let sameRec (x y : Kseq.Rec) : Bool := x.name == y.name && x.comment == y.comment && x.seq == y.seq && x.qual == y.qual
-  let rec sameRecs : List Kseq.Rec → List Kseq.Rec → Bool
-    | [], [] => true
-    | x :: xs, y :: ys => sameRec x y && sameRecs xs ys
-    | _, _ => false
-  let same (x y : List Kseq.Rec × Kseq.Outcome) : Bool := x.2 == y.2 && sameRecs x.1 y.1
-  if !(same a ai && same b bi) then "layer-mismatch" else
+  let a := Kseq.readAll 4096 fin false 0 d
+  let okA := !small || sameRun a (KseqIdx.readAllI 4096 fin false (Array.replicate 4096 0) d)
+  if !okA then "layer-mismatch" else
   match fin with
   | .clean =>
+    -- (`kseq_clean_early_irrelevant`: the timing of gzerror does not matter on a clean stream)
     (match a.2 with
      | .ok => joinSp ("ok" :: toString a.1.length :: a.1.map showRec)
      | .fatal c => "fatal:" ++ toString c
      | .stuck => "stuck")
   | _ =>
+    let b := Kseq.readAll 4096 fin true 255 d
+    let okB := !small || sameRun b (KseqIdx.readAllI 4096 fin true (Array.replicate 4096 255) d)
+    if !okB then "layer-mismatch" else
     (match a.2, b.2 with
      | .fatal _, .fatal _ => "fatal"
      | .stuck, _ | _, .stuck => "stuck"
